@@ -3,7 +3,7 @@ import re
 
 from ..core import operand_locals
 from ..engines import auth_fixpoint, returns_result
-from ..expr import (expr_of_operand, call_arg_exprs, evaluate, result_kind_of_ret, deep_repr, atoms_of,
+from ..expr import (E, expr_of_operand, call_arg_exprs, evaluate, result_kind_of_ret, deep_repr, atoms_of,
                     expr_of_local, E)
 from ..guards import edge_facts, facts_at
 from . import common as cm
@@ -195,7 +195,7 @@ def run(ctx, rep):
         okt = (rt.get("args") or [{}])[0].get("t", "") if rt.get("path") == "std::result::Result" else ""
         if not any(a["path"] in okt for a in prog.adts.values() if a["path"].startswith("classic::crypto_pwhash::") and len(a["variants"]) == 1):
             continue
-        if any(c.path == "base64::Engine::decode" for k2 in prog.reach_fns([g]) for c in prog.by_key[k2].calls()):
+        if any(c.path.startswith("base64::Engine::decode") for k2 in prog.reach_fns([g]) for c in prog.by_key[k2].calls()):     # decode, decode_vec, decode_slice, ...
             par.append(g)
     if not enc or not par:
         rep.violation("ANCHOR", "encoder/parser", "pwhash_to_string / parse_encoded_pwhash not found (base64 feature)")
@@ -345,7 +345,91 @@ def parser(rep, prog, par, roles):
         p1 = any(op == "Eq" and (str(l) + str(r)).count(fp + ")") and (l == 1 or r == 1) for op, l, r in facts) or (roles["p"], 1) in eqk
         rep.ob("PARSER", "Ok ⇒ version == 19", v19, "facts at the Ok exit: %s %s" % ([t for t in facts if fv in str(t)], sorted(eqk)), loc=par.loc(b))
         rep.ob("PARSER", "Ok ⇒ parallelism == 1", p1, "facts at the Ok exit: %s %s" % ([t for t in facts if fp in str(t)], sorted(eqk)), loc=par.loc(b))
+    parser_ranges(rep, par, roles)
     rep.floor("Ok exits of the parser", nok, 1)
+
+
+FLIP = {"Lt": "Gt", "Le": "Ge", "Gt": "Lt", "Ge": "Le", "Eq": "Eq", "Ne": "Ne"}
+
+
+def parser_ranges(rep, par, roles):
+    """RANGE: the parser accepts every salt of 8..=64 bytes and every hash of 16..=128 bytes (the lengths
+    the object API can produce): a comparison of a value derived from the length of the parsed salt /
+    hash with a constant, one side of which cannot reach an Ok exit, bounds the accepted lengths; the
+    implied minimum must not exceed 8 / 16 and the implied maximum must not be below 64 / 128."""
+    from ..expr import evaluate as _ev
+    oks = [b for b, kind, e in result_kind_of_ret(par) if kind == "ok" and b in par.reachable(0)]
+    want = {roles["salt"]: ("salt", 8, 64), roles["hash"]: ("hash", 16, 128)}
+    fld_reads = {}      # local -> field name, for `x = <state>.FIELD...` reads
+    for b_, i_, st in par.assigns():
+        rv = st["rv"]
+        pl = rv.get("x") if rv["k"] in ("use", "cast") else rv.get("place") if rv["k"] in ("ref", "discr") else None
+        if isinstance(pl, dict) and pl.get("p"):
+            for pe in pl["p"]:
+                if isinstance(pe, dict) and pe.get("n") in want:
+                    fld_reads[st["place"]["l"]] = pe["n"]
+
+    def field_of(e):
+        ls = cm.expr_leaf_locals(e)
+        txt = deep_repr(e)
+        hits = {nm for nm in want if ("." + nm) in txt}
+        back = par.backward_slice(list(ls)) if ls else set()
+        hits |= {fld_reads[l_] for l_ in back if l_ in fld_reads}
+        lens = ("len(" in txt) or any(c.name == "len" and c.dest and c.dest["l"] in back for c in par.calls())
+        return (list(hits)[0] if len(hits) == 1 else None), lens
+    found = {nm: {"min": [], "max": []} for nm in want}
+    for b in sorted(par.reachable(0)):
+        t = par.blocks[b]["t"]
+        if t["k"] != "switch":
+            continue
+        arms = {v_: tb for v_, tb in t["arms"]}
+        if 0 not in arms or arms[0] == t["otherwise"]:
+            continue
+        ft, tt = arms[0], t["otherwise"]
+        e = expr_of_operand(par, t["x"])
+        neg = False
+        while e.k == "unop" and e.a == "Not":
+            e, neg = e.b, not neg
+        if neg:
+            ft, tt = tt, ft
+        op = x = k = None
+        if e.k == "binop" and e.a in FLIP:
+            kl, kr = _ev(e.b, {}), _ev(e.c, {})
+            if isinstance(kr, int) and not isinstance(kr, bool):
+                op, x, k = e.a, e.b, kr
+            elif isinstance(kl, int) and not isinstance(kl, bool):
+                op, x, k = FLIP[e.a], e.c, kl
+        elif e.k == "call" and e.a.name == "is_empty" and e.a.args:
+            op, x, k = "Lt", E("call", e.a), 1
+            x = call_arg_exprs(e.a)[0]
+        if op is None:
+            continue
+        nm, is_len = field_of(x)
+        if nm is None or not (is_len or (e.k == "call")):
+            continue
+        ok_t = any(o in par.reachable(tt) for o in oks)
+        ok_f = any(o in par.reachable(ft) for o in oks)
+        lo = hi = None
+        if op == "Lt":
+            lo, hi = (k if not ok_t else None), (k - 1 if not ok_f else None)
+        elif op == "Le":
+            lo, hi = (k + 1 if not ok_t else None), (k if not ok_f else None)
+        elif op == "Gt":
+            hi, lo = (k if not ok_t else None), (k + 1 if not ok_f else None)
+        elif op == "Ge":
+            hi, lo = (k - 1 if not ok_t else None), (k if not ok_f else None)
+        if lo is not None:
+            found[nm]["min"].append((lo, par.loc(b)))
+        if hi is not None:
+            found[nm]["max"].append((hi, par.loc(b)))
+    for nm, (role, need_min, need_max) in want.items():
+        mn = max([v_ for v_, _ in found[nm]["min"]] or [0])
+        mx = min([v_ for v_, _ in found[nm]["max"]] or [1 << 62])
+        rep.ob("PARSER", "accepts every %s length %d..=%d" % (role, need_min, need_max), mn <= need_min and mx >= need_max,
+               "the parser's own length checks on the %s: minimum %s%s, maximum %s%s" % (
+                   role, mn, " at %s" % [l_ for v_, l_ in found[nm]["min"] if v_ == mn][:1] if mn else "",
+                   "none" if mx >= (1 << 62) else mx, "" if mx >= (1 << 62) else " at %s" % [l_ for v_, l_ in found[nm]["max"] if v_ == mx][:1]),
+               loc=par.loc())
 
 
 def deep_or(t):
